@@ -36,6 +36,9 @@ fn fixtures_for<B: Backend>(seed: u64) -> Value {
         "wrapping_key": hex::encode(key_bytes(&wk)),
         "secret_key": hex::encode(key_bytes(&sk)),
         "public_key": hex::encode(key_bytes(&pk)),
+        "public_text": pk.to_string(),
+        "local_text": lk.expose_key().to_string(),
+        "secret_text": sk.expose_key().to_string(),
         "pke_secret": hex::encode(&pke_sk_raw),
         "pke_public": hex::encode(&pke_pk_raw),
         "token_local": tl,
